@@ -52,6 +52,10 @@ func (m *LuaManager) RunLuaScript(obj *unstructured.Unstructured, script string)
 	// file system; scripts must not have access to files
 	l.SetGlobal("dofile", lua.LNil)
 	l.SetGlobal("loadfile", lua.LNil)
+	// load(reader) keeps calling the reader from Go until it returns nil or "": a reader that is
+	// itself a Go function (math.random) never passes the VM loop where the deadline below is
+	// checked, so the call would never return. loadstring remains for compiling a chunk.
+	l.SetGlobal("load", lua.LNil)
 	ctx, cancel := context.WithTimeout(context.Background(), 1*time.Second)
 	defer cancel()
 	l.SetContext(ctx)
